@@ -15,6 +15,17 @@ is loaded into a real Experiment.  Then a generated sequence of operations is ap
 
   ["read", "reload"]  the instance as stored on disk is loaded anew (Experiment.experimentFromInstance) and observed.
 
+  ["files", spec(, "reload")]  the state of the DISK while references are resolved: for every placeholder and every one
+                  of its instances 0..k independently, the instance has produced its outputs (stdout and named
+                  files, with a content that names the iteration; possibly empty), or its working directory is there
+                  without them (never executed / shut down / cleaned), or the directory is missing.  Against that disk
+                  the harness drives the entry points the runtime uses: DataReference.resolve of
+                  <placeholder>[/file]:loopoutput | :loopref | :output | :ref, StageReference (what Job.stageIn calls)
+                  for the aggregate references, and ComponentSpecification.resolveArguments (strict, as
+                  Job.resolveArguments calls it, and with ignoreErrors as ComponentSpecification.command does) of the
+                  outside consumers and of the newest instance of every looped component that aggregates a sibling;
+                  with "reload" in the graph of the instance loaded anew.  Then the disk is put back.
+
 Every case carries its ambient logging configuration (`log`: None = disabled, or levels of the root logger / the
 loggers of the anchored modules), optionally `hashseed` (the real code is run in a child process with that
 PYTHONHASHSEED), `again_after` (other cases to run before the case is run a second time in this process) and `sparse`
@@ -26,7 +37,9 @@ the Controller's registered condition producers and its dependency analysis of e
 by the real DataReference.resolve() of `:ref` / `:loopref` references to every placeholder and of the references of
 the outside consumers.
 
-Model: lean/St4sd/Model/Loop.lean + LoopMulti.lean via drv-c05 (`runOps`; num=true: the repaired sort keys).
+Model: lean/St4sd/Model/Loop.lean + LoopMulti.lean via drv-c05 (`runOps`; num=true: the repaired sort keys);
+lean/St4sd/Model/LoopDisk.lean for the `files` operations (loopOutputM, resolveOutputM, stageLoopRefM, argLoopOutputM,
+argOutputM over an arbitrary state of the disk).
 Theorems: lean/St4sd/Props/C05.lean.  Oracle: the property text restated on the real observations (independent of
 the model), per document with the document's own iteration count.
 """
@@ -475,6 +488,35 @@ TWO_DOCUMENTS = {
 }
 
 
+def disk_corpus():
+    """fixed cases of the `files` family: the condition component aggregates `x` (:loopoutput) and `y` (:loopref), an
+    outside consumer reads stage1.x:loopoutput; the outputs of the instances are all there / partially there"""
+    out = []
+
+    def case_k(k, x_states, ctl, y_states=None, reload=False):
+        c = norm(dict(copy.deepcopy(COND_AGGREGATES), k=k))
+        c["consumers"].append({"stage": 2, "name": "last0", "refs": [R("x", "output", stage=1)]})
+        c["consumers"].append({"stage": 2, "name": "hist0", "refs": [R("y", "loopoutput", stage=1, file="f.csv")]})
+        c["ctl"] = ctl
+        full = lambda nm: [value_token(i, nm) for i in range(k + 1)]
+        spec = [{"stage": 1, "name": "x", "states": x_states},
+                {"stage": 1, "name": "y", "states": y_states if y_states is not None else full("y")},
+                {"stage": 1, "name": "stop", "states": full("stop")}]
+        c["ops"] = c["ops"] + [["files", spec] + (["reload"] if reload else [])]
+        return c
+
+    def holes(k, idx, absent=None):
+        return [absent if i in idx else value_token(i, "x") for i in range(k + 1)]
+    out.append(("disk-k3-all-present", case_k(3, holes(3, []), False)))
+    out.append(("disk-k3-middle-missing", case_k(3, holes(3, [2]), False)))
+    out.append(("disk-k3-first-missing-controller", case_k(3, holes(3, [0]), True, y_states=holes(3, [1, 2], False))))
+    out.append(("disk-k2-newest-missing", case_k(2, holes(2, [2]), True)))
+    out.append(("disk-k1-none-present", case_k(1, holes(1, [0, 1]), False, y_states=[None, False])))
+    out.append(("disk-k11-tenth-missing", case_k(11, holes(11, [10]), False)))
+    out.append(("disk-k10-directory-of-ninth-missing-reloaded", case_k(10, holes(10, [9], False), True, reload=True)))
+    return out
+
+
 def comp_yaml(c, loop=False):
     d = {"name": c["name"], "stage": c["stage"],
          "command": {"executable": "echo", "arguments": args_text(c) or "hello"},
@@ -519,9 +561,240 @@ def model_request(case, num=True):
     docs = [{"comps": [comp(c) for c in lp["loop"]], "bindings": lp["bindings"], "loopBindings": lp["loopBindings"],
              "condStage": lp["cond"]["stage"], "condName": lp["cond"]["name"], "condFile": lp["cond"]["file"],
              "importStage": lp["import"]} for lp in case["loops"]]
-    return {"op": "runm", "num": num, "docs": docs, "sparse": bool(case.get("sparse")),
-            "ops": [["adv", op[1]] if op[0] == "adv" else ["read"] for op in case["ops"]],
+    ops = []
+    for n, op in enumerate(case["ops"]):
+        if op[0] == "adv":
+            ops.append(["adv", op[1]])
+        elif op[0] == "files":
+            st = norm_spec(case, counts(case["ops"][:n], len(case["loops"])), op[1])
+            ops.append(["files", [{"stage": s_, "name": n_, "states": v} for (s_, n_), v in sorted(st.items())]])
+        else:
+            ops.append(["read"])
+    return {"op": "runm", "num": num, "docs": docs, "sparse": bool(case.get("sparse")), "ops": ops,
             "out": [comp(c) for c in case["sources"] + case["consumers"]]}
+
+
+# ----------------------------------------------------------------------------------------
+# the state of the disk: which instances have produced their outputs when a reference is resolved
+# ----------------------------------------------------------------------------------------
+#
+# operation ["files", spec(, "reload")]: spec = [{"stage": S, "name": N, "states": [st_0 … st_k]}] for the placeholders
+# stage<S>.<N>; st_i is what instance i has on disk while the references are resolved: a string = its stdout and the
+# files DISK_FILES exist with that content (""= empty files), None = its working directory exists without them,
+# False = its working directory does not exist.  Afterwards the disk is put back (nothing ran).
+
+DISK_FILES = ("out.stdout", "f.csv", "res.dat")
+DISK_VARIANTS = ("", "f.csv")          # aggregate / newest-instance references without and with a file path
+DISK_PATTERNS = ["all", "all", "none", "first", "last", "middle", "middle", "one", "two", "independent", "independent",
+                 "only-last", "only-first", "tenth", "one-empty"]
+
+
+def value_token(i, name):
+    return "v%d_%s" % (i, name)
+
+
+def gen_states(rng, k, name, kind=None):
+    n = k + 1
+    st = [value_token(i, name) for i in range(n)]
+    kind = kind or rng.choice(DISK_PATTERNS)
+
+    def absent():
+        return rng.choice([None, None, False])
+    if kind == "none":
+        st = [absent() for _ in range(n)]
+    elif kind == "first":
+        st[0] = absent()
+    elif kind == "last":
+        st[-1] = absent()
+    elif kind == "middle":
+        st[rng.randint(min(1, n - 1), max(n - 2, min(1, n - 1)))] = absent()
+    elif kind == "one":
+        st[rng.randrange(n)] = absent()
+    elif kind == "two":
+        for i in rng.sample(range(n), min(2, n)):
+            st[i] = absent()
+    elif kind == "independent":
+        st = [rng.choice([v, v, v, "", None, False]) for v in st]
+    elif kind == "only-last":
+        st = [absent() for _ in range(n - 1)] + st[-1:]
+    elif kind == "only-first":
+        st = st[:1] + [absent() for _ in range(n - 1)]
+    elif kind == "tenth":
+        st[10 if n > 10 else rng.randrange(n)] = absent()
+    elif kind == "one-empty":
+        st[rng.randrange(n)] = ""
+    return st
+
+
+def placeholder_ids(case):
+    """{(stage, name): document index} of the looped components"""
+    return {(c["stage"] + lp["import"], c["name"]): l for l, lp in enumerate(case["loops"]) for c in lp["loop"]}
+
+
+def norm_spec(case, ks, spec):
+    """{(stage, name): [state of instance 0 … k]} for the placeholders of the case the specification names; instances
+    it does not cover have no working directory"""
+    known = placeholder_ids(case)
+    out = {}
+    for e in spec:
+        p = (e["stage"], e["name"])
+        if p in known:
+            k = ks[known[p]]
+            out[p] = (list(e["states"]) + [False] * (k + 1))[:k + 1]
+    return out
+
+
+def add_files(rng, case):
+    """insert 1-2 `files` operations into the operations of the case (restart cases: after the iterations of the earlier
+    run) and give the case an outside consumer of a `:loopoutput` reference"""
+    nl = len(case["loops"])
+    everything = [(lp, c) for lp in case["loops"] for c in lp["loop"]]
+    if rng.random() < 0.6:
+        lp, t = rng.choice(everything)
+        case["consumers"].append({"stage": max(c["stage"] for c in case["consumers"]), "name": "hist0",
+                                  "refs": [R(t["name"], "loopoutput", stage=t["stage"] + lp["import"],
+                                             file=rng.choice(["", "", "f.csv"]))]})
+    ops = case["ops"]
+    lo = 0
+    if case.get("start"):
+        fin = finished_documents(case, case["start"])
+        lo = max([i + 1 for i, op in enumerate(ops) if op[0] == "adv" and op[1] in fin] or [0])
+    positions = {len(ops) if rng.random() < 0.6 else rng.randint(lo, len(ops)) for _ in range(rng.choice([1, 1, 2]))}
+    for pos in sorted(positions, reverse=True):
+        ks = counts(ops[:pos], nl)
+        spec = [{"stage": c["stage"] + lp["import"], "name": c["name"],
+                 "states": gen_states(rng, ks[l], c["name"])}
+                for l, lp in enumerate(case["loops"]) for c in lp["loop"]]
+        op = ["files", spec]
+        if rng.random() < 0.12:
+            op.append("reload")        # resolved in the instance loaded anew from disk
+        ops.insert(pos, op)
+    return case
+
+
+def inst_dir(root, stage, i, name):
+    return os.path.join(root, "stages", "stage%d" % stage, "%d#%s" % (i, name))
+
+
+def apply_disk(root, states, aside):
+    """make the disk look like `states`; returns the undo list"""
+    undo = []
+    os.makedirs(aside, exist_ok=True)
+
+    def away(path):
+        dest = os.path.join(aside, "%d" % len(os.listdir(aside)))
+        os.rename(path, dest)
+        undo.append(("mv", dest, path))
+    for (stage, name), sts in sorted(states.items()):
+        for i, st in enumerate(sts):
+            d = inst_dir(root, stage, i, name)
+            had = os.path.isdir(d)
+            if st is False:
+                if had:
+                    away(d)
+                continue
+            if not had:
+                os.makedirs(d)
+                undo.append(("rmtree", d, None))
+            for fn in DISK_FILES:
+                f = os.path.join(d, fn)
+                if os.path.lexists(f):
+                    away(f)
+                if isinstance(st, str):
+                    with open(f, "w") as fh:
+                        fh.write(st + "\n" if st else "")
+                    undo.append(("rm", f, None))
+    return undo
+
+
+def undo_disk(undo):
+    for kind, a, b in reversed(undo):
+        try:
+            if kind == "mv":
+                os.rename(a, b)
+            elif kind == "rm":
+                os.remove(a)
+            else:
+                shutil.rmtree(a, ignore_errors=True)
+        except OSError:
+            pass
+
+
+def observe_disk(wg, case, G, ks, states):
+    """the entry points that resolve references against the disk: DataReference.resolve, StageReference (Job.stageIn)
+    and ComponentSpecification.resolveArguments (the command line), for synthetic references to every placeholder of
+    `states` and for the consumers of the case"""
+    import experiment.model.data as D
+    import experiment.model.errors as E
+    root = wg.rootStorage.location
+
+    def missing(exc):
+        return [path_to_id(x, root)[0] for _, x in exc.referenceErrors]
+
+    def resolve(text, method):
+        try:
+            v = G.DataReference(text).resolve(wg)
+        except E.DataReferenceFilesDoNotExistError as exc:
+            return {"err": missing(exc)}
+        except Exception as exc:  # noqa
+            return {"raised": type(exc).__name__}
+        if method == "loopoutput":
+            return {"ok": v.split(" ")}
+        if method == "output":
+            return {"ok": v}
+        return {"ok": [list(path_to_id(x, root)) for x in v.split(" ")]}
+
+    def stage(text):
+        try:
+            D.StageReference(G.DataReference(text), None, wg)
+            return {"ok": True}
+        except E.DataReferenceFilesDoNotExistError as exc:
+            return {"err": missing(exc)}
+        except Exception as exc:  # noqa
+            return {"raised": type(exc).__name__}
+    phs = {}
+    for (stage_, name) in sorted(states):
+        p = cid(stage_, name)
+        e = {}
+        for f in DISK_VARIANTS:
+            sfx = "/" + f if f else ""
+            for m in ("loopoutput", "loopref", "output", "ref"):
+                e[m + sfx] = resolve("%s%s:%s" % (p, sfx, m), m)
+            for m in ("loopoutput", "loopref"):
+                e["stage:" + m + sfx] = stage("%s%s:%s" % (p, sfx, m))
+        phs[p] = e
+
+    def cmdline(node):
+        spec = wg.graph.nodes[node]["componentSpecification"]
+        out = {}
+        for key, kw in (("strict", {}), ("lenient", {"ignoreErrors": True})):
+            try:
+                out[key] = {"ok": spec.resolveArguments(**kw).replace(root, "$I")}
+            except Exception as exc:  # noqa
+                out[key] = {"raised": type(exc).__name__}
+        return out
+    cmds = {}
+    for node in cmdline_nodes(case, ks):
+        if wg.graph.has_node(node):
+            cmds[node] = cmdline(node)
+    return {"placeholders": phs, "cmdlines": cmds}
+
+
+def cmdline_nodes(case, ks):
+    """{component id: (argument reference texts in textual order, all declared reference texts)} of the components whose
+    command line is resolved against the disk: the outside consumers and the newest instance of every looped
+    component that aggregates a looped sibling"""
+    out = {}
+    for c in case["consumers"]:
+        texts = [ref_text(r) for r in c["refs"]]
+        out[cid(c["stage"], c["name"])] = ([texts[i] for i in arg_indices(c)], texts)
+    for l, lp in enumerate(case["loops"]):
+        keys = {b["key"] for b in lp["bindings"]}
+        for c in lp["loop"]:
+            if any(r["method"] in AGG and not r["direct"] and r["producer"] not in keys for r in c["refs"]):
+                texts = expected_refs(lp, c, ks[l])
+                out[cid(c["stage"] + lp["import"], "%d#%s" % (ks[l], c["name"]))] = ([texts[i] for i in arg_indices(c)], texts)
+    return out
 
 
 # ----------------------------------------------------------------------------------------
@@ -693,7 +966,8 @@ def impl_run(case, tmp):
     steps = []
     at = []            # number of operations applied when the observation was made
     sparse = bool(case.get("sparse"))       # observe only after the load and after the last operation
-    store = any(op[0] == "read" and op[1] == "reload" for op in case["ops"])
+    store = any((op[0] == "read" and op[1] == "reload") or (op[0] == "files" and "reload" in op[2:]) for op in case["ops"])
+    disk = []          # observations of the `files` operations: {"at": operations applied, "obs": …}
     prev = logging.root.manager.disable
     restore_log = apply_log(case.get("log"))
     n_int, n_eng = len(env["intervals"]), len(env["ENGINES"])
@@ -744,6 +1018,23 @@ def impl_run(case, tmp):
                                 directory = exp.instanceDirectory.createJobWorkingDirectory(ident.stageIndex, ident.componentName)
                                 exp.getStage(ident.stageIndex).add_job(D.Job.jobFromConfiguration(ident, wg, directory))
                     preds = None
+                elif op[0] == "files":
+                    # the instances have / have not produced their outputs: resolve the references against that disk
+                    where = "files"
+                    ks_now = counts(case["ops"][:n], len(case["loops"]))
+                    states = norm_spec(case, ks_now, op[1])
+                    target = wg
+                    if "reload" in op[2:]:
+                        # another entry point to the same code: the graph of the instance loaded anew from disk
+                        # (loading creates missing working directories: the disk is prepared afterwards)
+                        import experiment.model.data as D
+                        target = D.Experiment.experimentFromInstance(exp.instanceDirectory.location).experimentGraph
+                    undo = apply_disk(wg.rootStorage.location, states, os.path.join(tmp, "aside"))
+                    try:
+                        disk.append({"at": n + 1, "obs": observe_disk(target, case, G, ks_now, states)})
+                    finally:
+                        undo_disk(undo)
+                    preds = None
                 elif op[1] == "reload":
                     # another entry point to the same code: the instance as stored on disk is loaded anew (restart,
                     # read-only tools): all iterations are there at load time instead of arriving one by one
@@ -771,8 +1062,8 @@ def impl_run(case, tmp):
         except Exception as exc:  # noqa
             import traceback
             return {"error": "%s:%s" % (where, type(exc).__name__), "msg": traceback.format_exc()[-1500:],
-                    "steps": steps, "at": at}
-        return {"steps": steps, "at": at}
+                    "steps": steps, "at": at, "disk": disk}
+        return {"steps": steps, "at": at, "disk": disk}
     finally:
         restore_log()
         logging.disable(prev if isinstance(prev, int) else logging.CRITICAL)
@@ -792,7 +1083,7 @@ def impl_run(case, tmp):
 
 def out_digest(out):
     import json
-    return json.dumps({"steps": out["steps"], "error": out.get("error")}, sort_keys=True)
+    return json.dumps({"steps": out["steps"], "error": out.get("error"), "disk": out.get("disk")}, sort_keys=True)
 
 
 def run_children(items):
@@ -1030,6 +1321,204 @@ def oracle_run(case, out):
     return res
 
 
+_INST = re.compile(r"^(\d+)#(.+)$")
+
+
+def disk_value(case, ks, states, text):
+    """what the reference `text` on a command line stands for, given the state of the disk, according to the property
+    text: (value, complete) — `complete` False: an :output/:loopoutput reference whose files are not all there (the value
+    is then the empty string: `resolveArguments` substitutes nothing for outputs that are not there yet — never a
+    part of the list, never the output of another iteration); None: not a reference this oracle knows"""
+    pr = ref_parse(text)
+    if pr.get("unparsed") or pr.get("direct") or pr["method"] not in ARG_METHODS:
+        return None
+    known = placeholder_ids(case)
+    sfx = "/" + pr["file"] if pr["file"] else ""
+
+    def path(name):
+        return "$I/stages/stage%d/%s%s" % (pr["stage"], name, sfx)
+    p = (pr["stage"], pr["producer"])
+    m = pr["method"]
+    if p in known:
+        st = states.get(p)
+        k = ks[known[p]]
+        if st is None:
+            return None
+        if m == "loopref":
+            return " ".join(path("%d#%s" % (i, p[1])) for i in range(k + 1)), True
+        if m == "ref":
+            return path("%d#%s" % (k, p[1])), True
+        if m == "output":
+            return (st[k], True) if isinstance(st[k], str) else ("", False)
+        if all(isinstance(x, str) for x in st):
+            return " ".join(st), True
+        return "", False
+    im = _INST.match(pr["producer"])
+    if im and (pr["stage"], im.group(2)) in known:
+        st = states.get((pr["stage"], im.group(2)))
+        i = int(im.group(1))
+        if st is None or i >= len(st) or m in AGG:
+            return None
+        if m == "ref":
+            return path(pr["producer"]), True
+        return (st[i], True) if isinstance(st[i], str) else ("", False)
+    if any((c["stage"], c["name"]) == p for c in case["sources"] + case["consumers"]):
+        # a component outside the loops: nothing ran, it has no output
+        return (path(p[1]), True) if m == "ref" else (("", False) if m == "output" else None)
+    return None
+
+
+def disk_class(st):
+    """input class of the per-instance states of one placeholder"""
+    n = len(st)
+    miss = [i for i, x in enumerate(st) if not isinstance(x, str)]
+    tag = "k>=10:" if n > 10 else "k=0:" if n == 1 else "k=1-9:"
+    if not miss:
+        return tag + ("all-present-one-empty" if "" in st else "all-present")
+    if len(miss) == n:
+        return tag + "none-present"
+    where = sorted({"first" if i == 0 else "last" if i == n - 1 else "middle" for i in miss})
+    return tag + "missing-" + "+".join(where) + (":directory" if any(st[i] is False for i in miss) else "")
+
+
+def oracle_disk(case, ks, states, obs):
+    """[(slug, detail)]: the clauses `aggregate loop references list all instances in increasing iteration order` and
+    `a reference from outside resolves to the instance with the numerically highest iteration`, restated on what the
+    real resolve()/resolveArguments() returned while the disk was in state `states`"""
+    bad = []
+    for (stage, name), st in sorted(states.items()):
+        p = cid(stage, name)
+        e = obs["placeholders"].get(p)
+        if e is None:
+            continue
+        k = len(st) - 1
+        insts = [cid(stage, "%d#%s" % (i, name)) for i in range(k + 1)]
+        absent = [insts[i] for i in range(k + 1) if not isinstance(st[i], str)]
+        for f in DISK_VARIANTS:
+            sfx = "/" + f if f else ""
+            r = e["loopoutput" + sfx]
+            info = {"j": k, "placeholder": p, "reference": "%s%s:loopoutput" % (p, sfx), "instances": k + 1,
+                    "instances_without_the_file": absent}
+            if "ok" in r:
+                # a value: exactly one entry per instance 0 … k, entry i = the output of iteration i
+                if absent or r["ok"] != st:
+                    bad.append(("loopoutput-does-not-list-every-instance-in-iteration-order",
+                                dict(info, entries=len(r["ok"]), got=r["ok"], outputs_on_disk=st)))
+            elif not absent:
+                bad.append(("loopoutput-not-resolved-although-every-instance-has-its-output", dict(info, got=r)))
+            r = e["loopref" + sfx]
+            if r.get("ok") != [[x, f] for x in insts]:
+                bad.append(("loopref-not-in-increasing-iteration-order",
+                            {"j": k, "placeholder": p, "reference": "%s%s:loopref" % (p, sfx), "got": r,
+                             "outputs_on_disk": st}))
+            r = e["output" + sfx]
+            info = {"j": k, "placeholder": p, "reference": "%s%s:output" % (p, sfx), "expected": insts[-1],
+                    "outputs_on_disk": st}
+            if "ok" in r:
+                # the output of the numerically highest instance — if that is not there, no other will do
+                if not isinstance(st[k], str) or r["ok"] != st[k]:
+                    bad.append(("outside-reference-not-numerically-latest-instance", dict(info, got=r)))
+            elif isinstance(st[k], str):
+                bad.append(("outside-reference-not-numerically-latest-instance", dict(info, got=r)))
+            r = e["ref" + sfx]
+            if r.get("ok") != [[insts[-1], f]]:
+                bad.append(("outside-reference-not-numerically-latest-instance",
+                            {"j": k, "placeholder": p, "reference": "%s%s:ref" % (p, sfx), "got": r,
+                             "expected": insts[-1]}))
+    for node, (arg_texts, all_texts) in sorted(cmdline_nodes(case, ks).items()):
+        got = obs["cmdlines"].get(node)
+        if got is None:
+            continue
+        vals = [disk_value(case, ks, states, t) for t in arg_texts]
+        declared = [(t, disk_value(case, ks, states, t)) for t in all_texts
+                    if not ref_parse(t).get("unparsed") and ref_parse(t)["method"] == "loopoutput"]
+        if any(v is None for v in vals) or any(v is None for _, v in declared):
+            continue
+        want = " ".join(v for v, _ in vals) if arg_texts else "hello"
+        incomplete = [t for t, v in declared if not v[1]]
+        for mode in ("strict", "lenient"):
+            r = got[mode]
+            if "ok" in r:
+                if r["ok"] != want:
+                    bad.append(("command-line-reference-not-the-denoted-instances",
+                                {"j": max(ks), "component": node, "resolveArguments": mode, "arguments": " ".join(arg_texts),
+                                 "expected": want, "got": r["ok"],
+                                 "outputs_on_disk": {cid(*q): v for q, v in sorted(states.items())}}))
+            elif mode == "lenient" or not incomplete:
+                # refusing is fine when an aggregate cannot be completed; otherwise the command line must be built
+                bad.append(("command-line-not-built-although-every-output-is-there",
+                            {"j": max(ks), "component": node, "resolveArguments": mode, "got": r}))
+    return bad
+
+
+def canon_impl_disk(obs):
+    phs = {}
+    for p, e in obs["placeholders"].items():
+        def ids(r):
+            return {"ok": [x[0] for x in r["ok"]]} if "ok" in r else r
+        phs[p] = {"loopoutput": [e["loopoutput" + ("/" + f if f else "")] for f in DISK_VARIANTS],
+                  "output": [e["output" + ("/" + f if f else "")] for f in DISK_VARIANTS],
+                  "order": [ids(e["loopref" + ("/" + f if f else "")]) for f in DISK_VARIANTS],
+                  "latest": [ids(e["ref" + ("/" + f if f else "")]) for f in DISK_VARIANTS],
+                  # StageReference: nothing is returned on success
+                  "stageLoopoutput": [("ok" if "ok" in e["stage:loopoutput" + ("/" + f if f else "")] else
+                                       e["stage:loopoutput" + ("/" + f if f else "")]) for f in DISK_VARIANTS],
+                  "stageLoopref": [("ok" if "ok" in e["stage:loopref" + ("/" + f if f else "")] else
+                                    e["stage:loopref" + ("/" + f if f else "")]) for f in DISK_VARIANTS]}
+    return phs
+
+
+def canon_model_disk(md):
+    phs = {}
+    for a in md["placeholders"]:
+        lo = a["loopoutput"]
+        phs[a["id"]] = {"loopoutput": [lo, lo], "output": [a["output"], a["output"]],
+                        "order": [{"ok": a["order"]}] * 2, "latest": [{"ok": [a["latest"]]}] * 2,
+                        "stageLoopoutput": ["ok" if "ok" in lo else lo] * 2,
+                        "stageLoopref": ["ok" if "ok" in a["stageLooprefDir"] else a["stageLooprefDir"],
+                                         "ok" if "ok" in a["stageLooprefFile"] else a["stageLooprefFile"]]}
+    return phs
+
+
+def model_cmdlines(case, md):
+    """the command lines of the outside consumers composed from the model's answers: Loop.argLoopOutputM /
+    Loop.argOutputM for output references, Loop.loopRefOrderM / Loop.resolveProducerM for path references"""
+    ans = {a["id"]: a for a in md["placeholders"]}
+    out = {}
+    for c in case["consumers"]:
+        strict, lenient, ok = [], [], True
+        refs = [c["refs"][i] for i in arg_indices(c)]
+        fails = False
+        for r in c["refs"]:
+            a = ans.get(cid(r["stage"], r["producer"]))
+            if a is None:
+                ok = False
+            elif r["method"] == "loopoutput" and a["argLoopoutput"] == "inconsistent":
+                fails = True
+        if not ok:
+            continue
+        for r in refs:
+            a = ans[cid(r["stage"], r["producer"])]
+            sfx = "/" + r["file"] if r["file"] else ""
+
+            def path(x):
+                st, nm = x.split(".", 1)
+                return "$I/stages/%s/%s%s" % (st, nm, sfx)
+            if r["method"] == "loopoutput":
+                v = a["argLoopoutput"]
+                strict.append(" ".join(v["full"]) if isinstance(v, dict) else "")
+            elif r["method"] == "output":
+                strict.append(a["argOutput"])
+            elif r["method"] == "loopref":
+                strict.append(" ".join(path(x) for x in a["order"]))
+            else:
+                strict.append(path(a["latest"]))
+        line = " ".join(strict) if refs else "hello"
+        out[cid(c["stage"], c["name"])] = {"strict": {"raised": "InternalInconsistencyError"} if fails else {"ok": line},
+                                          "lenient": {"ok": line}}
+    return out
+
+
 # ----------------------------------------------------------------------------------------
 # comparison with the model
 # ----------------------------------------------------------------------------------------
@@ -1185,6 +1674,36 @@ def check_cases(ctx, cases):
             for slug, detail in oracle_run(case, out):
                 ctx.fail(slug, case, detail)
                 ctx.tag("oracle:" + slug)
+            # the references resolved against the disk (`files` operations)
+            seen_disk = set()
+            for d in out.get("disk") or []:
+                n_at = d["at"]
+                ks_at = counts(case["ops"][:n_at], nl)
+                states = norm_spec(case, ks_at, case["ops"][n_at - 1][1])
+                ctx.tag("files-operation:" + ("reloaded-instance" if "reload" in case["ops"][n_at - 1][2:] else "live-graph"))
+                for q, st in states.items():
+                    ctx.tag("disk:" + disk_class(st))
+                    for m in sorted({r["method"] for c in case["consumers"] for r in c["refs"]
+                                     if (r["stage"], r["producer"]) == q and r["method"] in ("loopoutput", "loopref", "output")}):
+                        ctx.tag("disk-consumer:%s:%s" % (m, "all-present" if all(isinstance(x, str) for x in st) else
+                                                        "some-or-all-missing"))
+                for slug, detail in oracle_disk(case, ks_at, states, d["obs"]):
+                    if slug not in seen_disk:
+                        seen_disk.add(slug)
+                        ctx.fail(slug, case, dict(detail, after_ops=n_at))
+                        ctx.tag("oracle:" + slug)
+                if mouts is not None:
+                    md = [x for x in mouts[idx].get("disk", []) if x["at"] == n_at]
+                    if md:
+                        ctx.compare("DataReference.resolve / StageReference of <placeholder>[/file]:loopoutput|loopref|output|ref "
+                                    "against the state of the disk == Loop.loopOutputM / stageLoopRefM / resolveOutputM / "
+                                    "loopRefOrderM / resolveProducerM", {"case": case, "after_ops": n_at},
+                                    canon_model_disk(md[0]), canon_impl_disk(d["obs"]))
+                        mc = model_cmdlines(case, md[0])
+                        ctx.compare("ComponentSpecification.resolveArguments of the outside consumers (strict and "
+                                    "ignoreErrors) against the state of the disk == composition of Loop.argLoopOutputM / "
+                                    "argOutputM / loopRefOrderM / resolveProducerM", {"case": case, "after_ops": n_at},
+                                    mc, {k_: v_ for k_, v_ in d["obs"]["cmdlines"].items() if k_ in mc})
             shared_names = shares_names(case)
             if shared_names:
                 ctx.tag("looped-components-share-a-name")
@@ -1462,7 +1981,13 @@ def run(ctx):
                 "loaded anew (Experiment.experimentFromInstance) and observed like the live one.  A sample of the small "
                 "cases is run again in child processes with other PYTHONHASHSEEDs, and again in the same process after "
                 "other cases with the same names in other roles; thorough: 101 / 100 iterations observed at the end "
-                "only.  The workflow is observed and compared after the load and after every "
+                "only.  70% of the generated cases additionally get 1-2 `files` operations anywhere in the sequence "
+                "(mostly at the end) and an outside consumer of a :loopoutput reference (with or without a file path): "
+                "for EVERY placeholder the state of the disk of each instance 0..k is drawn independently from a pattern "
+                "(all present; none; first / one in the middle / last / the tenth / one random / two missing; all but the "
+                "last or all but the first missing; independent per instance; one empty file), a missing output being "
+                "either a missing file or a missing working directory; 12% of them resolve in the graph of the instance "
+                "loaded anew; plus 7 fixed cases (k = 1,2,3,10,11).  The workflow is observed and compared after the load and after every "
                 "operation.  non-trivial = at least one iteration instantiated; distinct by the canonical JSON of "
                 "the case.")
     ctx.assumptions = [
@@ -1474,8 +1999,19 @@ def run(ctx):
         "predecessor of a placeholder of a live document is 'active')",
         "restart cases (`start` > 0): every document lies entirely before the start stage (its iterations were "
         "instantiated before the Controller exists, its placeholders are then FINISHED) or entirely at/after it",
-        ":loopoutput shares looped_reference_to_paths with :loopref; nothing ran, so its resolve() fails with the list "
-        "of the missing per-instance files in aggregate order: that order is what is observed for :loopoutput consumers",
+        ":loopoutput shares looped_reference_to_paths with :loopref; outside the `files` operations nothing ran, so its "
+        "resolve() fails with the list of the missing per-instance files in aggregate order: that order is what is "
+        "observed there for :loopoutput consumers",
+        "`files` operations: the outputs are written by the harness (content v<iteration>_<name>, no blanks; an empty "
+        "file is an output that is there), one state per instance for its stdout and its named files alike; a value "
+        "returned by resolve() of :loopoutput must have exactly one entry per instance 0..k with entry i the content "
+        "of iteration i, which is only possible when every instance has its file - otherwise resolve() must raise; "
+        ":output of a placeholder must be the content of the file of instance k or raise, never an older one; on a "
+        "command line built by resolveArguments an :output/:loopoutput reference whose files are not all there may "
+        "only be replaced by the empty string (the code's documented `I assume that it will be generated` treatment "
+        "of outputs at validation time) or the call may raise - never by a part of the list or another iteration's "
+        "output; whether StageReference accepts a :loopref whose paths do not all exist is compared with the model "
+        "(Loop.stageLoopRefM) but is not part of the oracle (the list it would hand on is still complete and ordered)",
         "aggregate references inside a loop are only given to looped components on which no other looped component "
         "depends (no reference to them, not the source of a loopBinding): for any other component the expansion "
         "`all instances + producer of the current condition` closes a dependency cycle in the code as it is",
@@ -1524,6 +2060,14 @@ def run(ctx):
         ks = [0, 1, 2, 4, 6, 9, 10, 11, 12, 13, 15, 19, 20, 21, 22, 25, 25]
         n, budget = 215, 30
     generated = [gen_case(rng, budget, ks) for _ in range(n)]
+    # the state of the disk: most cases get 1-2 `files` operations (drawn from a generator of their own, after the
+    # packages and operation sequences, so that those stay what they were)
+    import random
+    rng2 = random.Random(rng.getrandbits(64))
+    for c in generated:
+        if rng2.random() < 0.7:
+            add_files(rng2, c)
+    cases += [("corpus:" + name, c) for name, c in disk_corpus()]
     cases += [("generated", c) for c in generated]
     small = [c for c in generated if 1 <= sum(counts(c["ops"], len(c["loops"]))) <= 6]
     # (a) set-iteration order: a sample of the cases again in child processes with other hash seeds
